@@ -58,6 +58,7 @@ def _ev(e: str, **kw) -> dict:
     return d
 
 
+_ABSENT = object()
 ENOENT = -10001         # marker: the executable does not exist (distinct from a tool killed by a signal, rc < 0)
 EACCES = -10002         # marker: the executable is there but may not be executed (PermissionError at launch)
 ENOEXEC = -10003        # marker: the kernel cannot run the file (OSError "Exec format error" at launch)
@@ -228,7 +229,7 @@ def run_case(case: dict, workdir: Path) -> list[dict]:
     real_which, real_mkdtemp = shutil.which, tempfile.mkdtemp
     saved = [(subprocess, "Popen", subprocess.Popen), (os, "system", os.system), (shutil, "which", shutil.which),
              (tempfile, "mkdtemp", tempfile.mkdtemp),
-             (Reduino, "validate_platform_board", Reduino.validate_platform_board),
+             (Reduino, "validate_platform_board", getattr(Reduino, "validate_platform_board", _ABSENT)),
              (piomod, "validate_platform_board", piomod.validate_platform_board),
              (Reduino, "parse", Reduino.parse), (Reduino, "_collect_required_libraries", Reduino._collect_required_libraries),
              (Reduino, "emit", Reduino.emit)]
@@ -259,7 +260,11 @@ def run_case(case: dict, workdir: Path) -> list[dict]:
     finally:
         sys.modules["__main__"] = old_main
         for obj, name, val in saved:
-            setattr(obj, name, val)
+            if val is _ABSENT:            # the name was not there before (a tree that no longer imports it): take our wrapper away again
+                if hasattr(obj, name):
+                    delattr(obj, name)
+            else:
+                setattr(obj, name, val)
         if os.getcwd() != cwd0:
             os.chdir(cwd0)
     return events
